@@ -449,7 +449,7 @@ size_t qhex_decode(char *str) {
     };
 
     char *pEncPt, *pBinPt = str;
-    for (pEncPt = str; *pEncPt != '\0'; pEncPt += 2) {
+    for (pEncPt = str; *pEncPt != '\0' && *(pEncPt + 1) != '\0'; pEncPt += 2) {
         *pBinPt++ = (HEXMAPTBL[(unsigned char) (*pEncPt)] << 4)
                 + HEXMAPTBL[(unsigned char) (*(pEncPt + 1))];
     }
